@@ -161,6 +161,23 @@ def fam_sql_pieces(rnd, full):
     for name, q in Q.items():
         yield C("sql-parameterization", "sqlite-query/multi-parameter", name, pre + f"    cur.execute({q})\n" + post, name)
 
+# ---------------------------------------------------------------- file handles reachable through alias chains (fix-file-resource-leak)
+def fam_file_alias(rnd, full):
+    """f = open(...); g = f; h = g ...: every alias is the same resource. depth x what happens to the deepest alias (used last / returned / closed / passed on)"""
+    for depth in (0, 1, 2, 3):
+        names = ["f", "g", "h", "k"][: depth + 1]; last = names[-1]
+        chain = "".join(f"    {b} = {a}\n" for a, b in zip(names, names[1:]))
+        setup = "def w():\n    p = open('t.txt', 'w')\n    p.write('hello world')\n    p.close()\n"
+        for fate, tail in (("used-last", f"    first = f.read(2)\n    rest = {last}.read()\n    print(first, rest)\n"),
+                           ("returned", f"    print(f.read(1))\n    return {last}\n"),
+                           ("closed-explicitly", f"    print({last}.read())\n    {last}.close()\n    print(f.closed)\n"),
+                           ("passed-to-call", f"    consume({last})\n    print(f.closed)\n"),
+                           ("stored-in-list", f"    keep.append({last})\n    print(len(keep))\n")):
+            src = "keep = []\ndef consume(x):\n    print(x.read(3))\n" + setup + "w()\n" + f"def r():\n    f = open('t.txt')\n{chain}{tail}" + "res = r()\nif res is not None:\n    print(res.read(4), res.closed)\nfor x in keep:\n    print(x.read(2))\n"
+            yield C("fix-file-resource-leak", f"open-alias-chain/depth-{depth}", fate, src, f"depth{depth}-{fate}")
+    yield C("fix-file-resource-leak", "open-twice-same-name", "plain", "def w():\n    f = open('a.txt', 'w')\n    f.write('1')\n    f = open('b.txt', 'w')\n    f.write('2')\nw()\nprint(open('a.txt').read(), open('b.txt').read())\n")
+    yield C("fix-file-resource-leak", "open-in-branch", "plain", "def w(flag):\n    if flag:\n        f = open('a.txt', 'w')\n    else:\n        f = open('b.txt', 'w')\n    f.write('x')\n    f.flush()\n    print(f.name)\nw(True)\nw(False)\n")
+
 # ---------------------------------------------------------------- import blocks (order-imports, unused-imports)
 IMPORTABLE = {"os": ["path", "sep", "getcwd"], "json": ["dumps", "loads"], "sys": ["maxsize", "argv"], "collections": ["OrderedDict", "defaultdict"], "math": ["pi", "floor"], "itertools": ["chain", "count"], "string": ["digits"]}
 def import_block(rnd):
@@ -199,7 +216,7 @@ def fam_imports(rnd, full):
             del lines[rnd.choice(prints)]
             yield C("unused-imports", "import-block", "one-binding-unused", "".join(lines), f"block{k}")
 
-FAMS = [fam_startswith, fam_isinstance, fam_invert, fam_generator, fam_misc, fam_nested, fam_sql_pieces, fam_imports]
+FAMS = [fam_startswith, fam_isinstance, fam_invert, fam_generator, fam_misc, fam_nested, fam_sql_pieces, fam_file_alias, fam_imports]
 
 def all_cases(rnd, full):
     return [c for f in FAMS for c in f(rnd, full)]
